@@ -1089,33 +1089,31 @@ class Atoms:
 
     @property
     def num_atom_types(self):
-        if len(self.atom_types) == 0:
-            return 0
         return len(self.atom_type_elements)
 
     @property
     def num_bond_types(self):
-        if len(self.bond_types) == 0:
-            return 0
-        return len(self.bond_type_coeffs) or max(self.bond_types) + 1
+        if len(self.bond_type_coeffs) > 0 or len(self.bond_types) == 0:
+            return len(self.bond_type_coeffs)
+        return max(self.bond_types) + 1
 
     @property
     def num_angle_types(self):
-        if len(self.angle_types) == 0:
-            return 0
-        return len(self.angle_type_coeffs) or max(self.angle_types) + 1
+        if len(self.angle_type_coeffs) > 0 or len(self.angle_types) == 0:
+            return len(self.angle_type_coeffs)
+        return max(self.angle_types) + 1
 
     @property
     def num_dihedral_types(self):
-        if len(self.dihedral_types) == 0:
-            return 0
-        return len(self.dihedral_type_coeffs) or max(self.dihedral_types) + 1
+        if len(self.dihedral_type_coeffs) > 0 or len(self.dihedral_types) == 0:
+            return len(self.dihedral_type_coeffs)
+        return max(self.dihedral_types) + 1
 
     @property
     def num_improper_types(self):
-        if len(self.improper_types) == 0:
-            return 0
-        return len(self.improper_type_coeffs) or max(self.improper_types) + 1
+        if len(self.improper_type_coeffs) > 0 or len(self.improper_types) == 0:
+            return len(self.improper_type_coeffs)
+        return max(self.improper_types) + 1
 
     def extend_types(self, other):
         offsets = (self.num_atom_types, self.num_bond_types,
